@@ -1,5 +1,6 @@
 import JSight.Example
 import JSight.ExampleSelf
+import JSight.ExampleRefs
 /-!
 # C15 — Example() emits well-formed JSON
 
@@ -9,7 +10,10 @@ that type is already being built twice). `EX.tree` is the same recursion produci
 layout. Whatever `Example()` emits is the rendering of a valid JSON tree, and the JSON scanner reads
 back exactly that tree (with C06). Self-validation (`Validate(Example()) == nil`) is proved for
 reference-free schemas (`C15_self_valid`: what is emitted is the whole EXAMPLE document and `Validate`
-accepts it, by C04/C01); with type references, `or` and recursion cut-offs it is checked against the code
+accepts it, by C04/C01) and, with user-type references over arbitrary (also recursive) type tables, for every
+run of the builder in which no recursion cut-off happens (`C15_self_valid_refs`, through C03's
+`alts_iff_reach`). The cut-off cases (K-C15-reqcut, K-C15-arraycut), `or` inside containers (K-C15-or,
+K-C15-orcontainer) and key shortcuts (K-C15-keyalias) are outside the theorem and checked against the code
 outside the known-finding classes (harness `c15-example`).
 -/
 namespace Props.C15
@@ -31,6 +35,23 @@ theorem C15_self_valid {L D : Type} (tok : D → List Cls) (keyTok : String → 
     EX.build ts fuel proc (EX.ofS tok keyTok ex s) = some (some (EX.jaOf tok keyTok (VP.exampleOf ex s)).render) ∧
     VP.validate litOK s (VP.exampleOf ex s) = true :=
   EX.C15_self_valid tok keyTok ex litOK ts fuel proc s h
+
+/-- with user-type references (any type table, recursive or not): if the builder completes without a recursion
+cut-off (`exDoc … = some d`: no child omitted anywhere), the emitted bytes are the compact text of `d` and
+`Validate` accepts `d` — the reference is followed through its first name, the validator accepts through any
+alternative -/
+theorem C15_self_valid_refs {L D : Type} (env : VR.Env L) (litOK : L → D → Bool) (ex : L → D)
+    (henv : VR.CheckedEnv env litOK ex) (tok : D → List Cls) (keyTok : String → List Cls)
+    (fuel : Nat) (proc : String → Nat) (s : VR.S L) (hc : VR.checkedS litOK ex s = true)
+    (d : VN.J D) (h : VR.exDoc env ex fuel proc s = some d) :
+    EX.build (VR.tsOf tok keyTok ex env) fuel proc (VR.ofR tok keyTok ex s) = some (some (VR.jaOfN tok keyTok d).render) ∧
+    VR.validateT env litOK s d = true :=
+  ⟨VR.build_ofR tok keyTok env ex fuel proc s d h, VR.C15_self_valid_refs env litOK ex henv fuel proc s hc d h⟩
+
+/-- non-vacuity: a schema with a reference for which the builder completes -/
+example : VR.exDoc (L := Nat) (D := Nat) [("a", .lit 1)] id 5 (fun _ => 0) (.obj [("x", true, .ref ["a"] none)])
+    = some (.obj [("x", .lit 1)]) := by
+  simp [VR.exDoc, VR.exProps, VR.lookupT]
 
 /-- non-vacuity: a nested schema satisfying the hypothesis, and what is emitted for it -/
 example : VP.checked (fun (l : Nat) (d : Nat) => l == d) id
